@@ -13,8 +13,9 @@
 
    Recursion depth: the fuel of gen_decode is consumed once per nested decode call, so C09_gen_total also says
    that the native recursion depth never exceeds [length l + 1] -- and that is the only bound: the templates have
-   no depth limit, a recursive schema recurses once per nesting level of the INPUT (finding F-09f, demonstrated
-   on the implementation by the coordinator's C09 check; stack exhaustion is outside this model).
+   no depth limit, a recursive schema recurses once per nesting level of the INPUT (C09_gen_depth_unbounded below;
+   finding F-09f, demonstrated on the implementation by the coordinator's C09 check; stack exhaustion itself is
+   outside this model).
    Memory: the emitted sync container decoders preallocate from the element count returned by read_list_begin /
    read_set_begin / read_map_begin, which is bounded by the remaining input (PV.Properties.C09:
    C09_list_size_bounded, C09_map_size_bounded); byte strings are slices of the input. *)
@@ -65,3 +66,14 @@ Theorem C09_gen_monotone : forall S p f t s v s' tl,
   gen_decode S p f t s = Ok (v, s') -> gen_decode S p f t (ext s tl) = Ok (v, ext s' tl).
 Proof. exact gen_decode_monotone. Qed.
 Print Assumptions C09_gen_monotone.
+
+(* "never overflows the stack" is NOT provable for the emitted decoders, and the model says why: there is no depth
+   limit in the templates.  For the recursive struct R { 1: optional R next } and every d there is a message the
+   decoder accepts whose value is nested d+1 deep, and no run with fewer than d+1 nested decode calls (fuel <= d)
+   produces it: the native recursion depth is proportional to the nesting of the input (finding F-09f). *)
+Theorem C09_gen_depth_unbounded : exists S t, wf_schema S = true /\
+  forall d : nat, exists l v fuel,
+    gen_decode S PBinary fuel t (mkS l r0) = Ok (v, mkS [] r0) /\ gdepth v = Datatypes.S d /\
+    forall f s', (f <= d)%nat -> gen_decode S PBinary f t (mkS l r0) <> Ok (v, s').
+Proof. exact gen_depth_unbounded. Qed.
+Print Assumptions C09_gen_depth_unbounded.
